@@ -1,0 +1,7 @@
+//go:build verif
+
+package qr
+
+import "github.com/boombuler/barcode/utils"
+
+func verifEmit(ev string, who interface{}, a, b int) { utils.VerifEmit(ev, who, a, b) }
